@@ -284,7 +284,6 @@ func runItem(it item, shard, n int, res *ev.Result, lc *local, stop func() bool)
 		res.Outcome(it.sc.Name + ": " + o)
 		_ = c
 	}
-	res.Add("outcomes/"+it.sc.Name, int64(len(outcomes)))
 }
 
 func run(tier string, shard, n int, res *ev.Result) {
